@@ -31,6 +31,9 @@ structure Config where
   memoised : List (String × MemoKind)
   cleared : List String
   addInvalidates : Bool
+  /-- `add` of a multi-line string (the form `Circuit(text)` uses; `_add` returns None for it) is
+      followed by `_invalidate()` as well, i.e. the call is not conditional on the returned component -/
+  addMultiInvalidates : Bool
   removeInvalidates : Bool
   initInvalidates : Bool
   overrideDetaches : Bool
@@ -218,6 +221,8 @@ inductive Op where
   | new
   /-- public `add(line)` on instance `i` -/
   | add (i : Nat) (e : Elt)
+  /-- public `add("line1\nline2...")`: `_add` of every line, then one `_invalidate` -/
+  | addLines (i : Nat) (es : List Elt)
   /-- `_add(line)`: no `_invalidate` -/
   | addRaw (i : Nat) (e : Elt)
   /-- public `remove(name)` -/
@@ -233,6 +238,7 @@ def Op.target : Op → Option Nat
   | .new => none
   | .add i _ => some i
   | .addRaw i _ => some i
+  | .addLines i _ => some i
   | .remove i _ => some i
   | .query i _ => some i
   | .derive i _ _ => some i
@@ -267,6 +273,21 @@ def add (cfg : Config) (w : World) (i : Nat) (e : Elt) : World × Bool :=
   -- an exception in `_add` skips the `_invalidate()` that follows it
   if ok && cfg.addInvalidates then (invalidate cfg w1 i, ok) else (w1, ok)
 
+/-- the loop `for line in lines: self._add(line)`; an exception leaves the later lines out -/
+def addLinesInst (cfg : Config) : Inst → List Elt → Inst × Bool
+  | inst, [] => (inst, true)
+  | inst, e :: es =>
+    if (addRawInst cfg inst e).2 then addLinesInst cfg (addRawInst cfg inst e).1 es
+    else ((addRawInst cfg inst e).1, false)
+
+def addLines (cfg : Config) (w : World) (i : Nat) (es : List Elt) : World × Bool :=
+  match w.insts[i]? with
+  | none => (w, false)
+  | some inst =>
+    let r := addLinesInst cfg inst es
+    let w1 : World := { w with insts := w.insts.set i r.1 }
+    if r.2 && cfg.addMultiInvalidates then (invalidate cfg w1 i, r.2) else (w1, r.2)
+
 def remove (cfg : Config) (w : World) (i : Nat) (nm : String) : World × Bool :=
   match w.insts[i]? with
   | none => (w, false)
@@ -295,6 +316,7 @@ def step (cfg : Config) (w : World) (op : Op) : World × Bool :=
   | .new => (newInst cfg w, true)
   | .add i e => add cfg w i e
   | .addRaw i e => addRaw cfg w i e
+  | .addLines i es => addLines cfg w i es
   | .remove i nm => remove cfg w i nm
   | .query i q => ((query cfg w i q).1, true)
   | .derive i pre es => (derive cfg w i pre es, true)
